@@ -41,7 +41,8 @@
 //! `vf-kit::refsql`. (3) Added beyond the plan: reversed expressions, `IGNORE NULLS` for
 //! lag/lead/first/last/nth_value, negative lag/lead offsets and negative nth_value indices, several
 //! expressions per operator (exercises the "slowest expression" / shared pruning logic), declared
-//! partition orderings that are a permutation of PARTITION BY, empty input batches.
+//! partition orderings that are a permutation of PARTITION BY, empty input batches, aggregate `FILTER (WHERE b)`,
+//! an unsigned (`UInt64`) `id` key (unsigned RANGE arithmetic).
 //!
 //! **Genuine defects found** (all reproduced outside the harness with datafusion-cli / hand-made cases;
 //! recorded in /verif/known_findings.json, minimal cases under /verif/regressions/C09/c09/, candidate
@@ -58,15 +59,24 @@
 //!     `current - delta`; on an unsigned key smaller than the offset the bound is declared safe and the
 //!     aggregate is emitted before the rest of the frame arrives.
 //!
-//! **Sensitivity probes** (mkpatch + `mutrun <patch> -- ./check C09 quick`):
-//!  * P1 GROUPS end bound off by one (`window_state.rs`: `current_group_idx >= delta` → `>`): VIOLATION.
+//! **Sensitivity probes** (mkpatch + `mutrun <patch> -- ./check C09 quick`, seed 0; all on the unchanged harness):
+//!  * P1 GROUPS end bound off by one (`expr/src/window_state.rs`: `current_group_idx >= delta` → `>`): VIOLATION.
 //!  * P2 bounded executor prunes one buffered row too many (`bounded_window_agg_exec.rs`:
-//!    `min(window_frame_range.start + 1, last_calculated_index)`): see PROBE-RESULTS below.
-//!  * P3 ntile remainder distribution (`ntile.rs`: old `i * n / num_rows` formula): see below.
-//!  * P4 sliding aggregate does not retract when a RANGE frame becomes empty
-//!    (`sliding_aggregate.rs`, empty-frame branch disabled): VIOLATION.
-//!  * P7 nth_value memoisation finalises one row early (`nth_value.rs`: `size > n` → `size >= n`): see below.
-//!  PROBE-RESULTS: filled in below the probes that were run later.
+//!    `min(window_frame_range.start + 1, last_calculated_index)`): VIOLATION (arithmetic-underflow panic in
+//!    `WindowAggState::prune_state`, reported as a panic in the code under test after 6 cases).
+//!  * P3 ntile remainder distribution (`ntile.rs`: the old `i * n / num_rows` formula): VIOLATION (5th case).
+//!  * P4 sliding aggregate does not retract when a RANGE frame becomes empty between two non-empty frames
+//!    (`sliding_aggregate.rs`, empty-frame retraction disabled): VIOLATION.
+//!  * P5 Linear mode "end bound is safe" test off by one (`window_expr.rs`: `most_recent_row_value > value`
+//!    → `>=`): VIOLATION (Bounded/Linear only, after 401 cases).
+//!  * P6 RANGE offsets ignore DESC (`window_state.rs`: `SEARCH_SIDE == is_descending` → `SEARCH_SIDE`): VIOLATION.
+//!  * P7c first_value memoisation also finalises the result of an empty frame (`nth_value.rs`:
+//!    `(n_range > 0 && size > 0, false)` → `(size > 0, false)`): VIOLATION (through the reversed last_value path).
+//!  * P7 `nth_value` memoise `size > n` → `size >= n` and P7b negative-index buffer `reverse_index` →
+//!    `reverse_index - 1`: both stayed green; both are equivalent mutants (the last evaluated frame already holds
+//!    >= n rows, and the retained buffer is one row larger than needed), so no generator change was made.
+//!  Candidate repairs: `mutrun (all three fixes) -- env VF_C09_NO_EXCLUDE=1 ./check C09 quick` exits 0
+//!  (20 000 cases, exclusions off, the three regression cases pass).
 use std::cmp::Ordering;
 use std::collections::BTreeMap;
 use std::sync::Arc;
@@ -224,19 +234,19 @@ fn frame_bounds_legal(start: Bound, end: Bound) -> bool {
     start != Bound::UnboundedFollowing && end != Bound::UnboundedPreceding && bound_key(start) <= bound_key(end)
 }
 
-fn bound_strategy() -> BoxedStrategy<Bound> {
+fn bound_strategy(maxk: u8) -> BoxedStrategy<Bound> {
     prop_oneof![
         2 => Just(Bound::UnboundedPreceding),
-        3 => (0u8..4).prop_map(Bound::Preceding),
+        3 => (0u8..maxk).prop_map(Bound::Preceding),
         3 => Just(Bound::CurrentRow),
-        3 => (0u8..4).prop_map(Bound::Following),
+        3 => (0u8..maxk).prop_map(Bound::Following),
         2 => Just(Bound::UnboundedFollowing),
     ]
     .boxed()
 }
 
-fn frame_strategy() -> BoxedStrategy<Frame> {
-    let explicit = (prop_oneof![Just(Units::Rows), Just(Units::Range), Just(Units::Groups)], bound_strategy(), bound_strategy()).prop_map(
+fn frame_strategy(maxk: u8) -> BoxedStrategy<Frame> {
+    let explicit = (prop_oneof![Just(Units::Rows), Just(Units::Range), Just(Units::Groups)], bound_strategy(maxk), bound_strategy(maxk)).prop_map(
         |(units, a, b)| {
             let (mut start, mut end) = if bound_key(a) <= bound_key(b) { (a, b) } else { (b, a) };
             if start == Bound::UnboundedFollowing {
@@ -294,9 +304,9 @@ fn func_any() -> BoxedStrategy<Func> {
 
 /// `bounded`: rewrite the expression so that it reports `uses_bounded_memory()` (otherwise about half of
 /// the multi-expression cases would only ever reach `WindowAggExec`)
-fn expr_strategy(peer_safe_only: bool, bounded: bool) -> BoxedStrategy<ExprSpec> {
+fn expr_strategy(peer_safe_only: bool, bounded: bool, maxk: u8) -> BoxedStrategy<ExprSpec> {
     let f = if peer_safe_only { func_peer_safe() } else { func_any() };
-    (f, frame_strategy(), prop::bool::weighted(0.2), 0u8..4, prop::bool::weighted(0.15))
+    (f, frame_strategy(maxk), prop::bool::weighted(0.2), 0u8..maxk, prop::bool::weighted(0.15))
         .prop_map(move |(mut func, mut frame, ignore_nulls, k, filter)| {
             if bounded {
                 func = match func {
@@ -556,13 +566,18 @@ fn case_strategy(tier: Tier) -> BoxedStrategy<Case> {
         1 => prop::collection::vec(row_strategy(), 0..4),
         6 => prop::collection::vec(row_strategy(), 3..max_rows),
     ];
+    // frame offsets 0..=3 (quick) / 0..=6 (thorough)
+    let maxk = tier.pick(4u8, 7u8);
     let exprs = prop_oneof![
-        3 => prop::collection::vec(expr_strategy(true, true), 1..4),
-        2 => prop::collection::vec(expr_strategy(true, false), 1..4),
-        3 => prop::collection::vec(expr_strategy(false, true), 1..4),
-        2 => prop::collection::vec(expr_strategy(false, false), 1..4),
+        3 => prop::collection::vec(expr_strategy(true, true, maxk), 1..4),
+        2 => prop::collection::vec(expr_strategy(true, false, maxk), 1..4),
+        3 => prop::collection::vec(expr_strategy(false, true, maxk), 1..4),
+        2 => prop::collection::vec(expr_strategy(false, false, maxk), 1..4),
     ];
-    let batch = prop_oneof![Just(1u16), Just(2), Just(3), Just(5), Just(7), Just(8192)];
+    let batch = match tier {
+        Tier::Quick => prop_oneof![Just(1u16), Just(2), Just(3), Just(5), Just(7), Just(8192)].boxed(),
+        Tier::Thorough => prop_oneof![Just(1u16), Just(2), Just(3), Just(5), Just(7), Just(11), Just(16), Just(8192)].boxed(),
+    };
     (
         rows,
         (0u8..3, any::<bool>(), any::<[(bool, bool); 2]>(), any::<bool>()),
@@ -1451,11 +1466,13 @@ impl Property for C09 {
         Budget::new(tier.pick(20_000, 3_000_000), tier.pick(8, 16)).min_nontrivial(tier.pick(5_000, 800_000)).case_timeout(120)
     }
     fn rule(&self) -> String {
-        "0-28 (thorough 0-70) rows with id/2 partition cols/2 order cols (ties, NULLs)/3 value cols; 0-2 PARTITION BY columns, 0-3 ORDER BY keys \
-         (made total with `id` whenever an expression depends on peer order), 1-3 window expressions (16 functions x default/ROWS/RANGE/GROUPS frames, all legal bound pairs, \
-         offsets 0-3), input batch size in {1,2,3,5,7,8192}; every applicable executor (WindowAggExec, BoundedWindowAggExec Sorted/Linear x2 layouts/PartiallySorted, reversed \
-         expressions) is run and compared row-by-row (by id) with a definitional per-row frame evaluator. Non-trivial = (>= 2 partitions or a peer group of >= 2 rows or a \
-         partition of >= 3 rows under a total order) and some expression whose frame is not the whole partition, and >= 2 executors compared; distinct by case JSON."
+        "0-27 (thorough 0-69) rows with a unique unsigned id (with holes), 2 partition cols (Int64, Utf8), 2 order cols (Int64, Float64; ties, NULLs), value cols \
+         (Int64, dyadic Float64, Utf8, Boolean); 0-2 PARTITION BY columns, 0-3 ORDER BY keys (made total with `id` whenever an expression depends on peer order), \
+         1-3 window expressions (16 functions x default/ROWS/RANGE/GROUPS frames, all legal bound pairs, offsets 0-3 (thorough 0-6), IGNORE NULLS, FILTER), input batch \
+         size in {1,2,3,5,7,8192} (+11,16 thorough), optional empty batches; every applicable executor (WindowAggExec, BoundedWindowAggExec Sorted / Linear x2 layouts / \
+         PartiallySorted, reversed expressions) is run and compared row-by-row (by id) with a definitional per-row frame evaluator. Non-trivial = (>= 2 partitions or a \
+         peer group of >= 2 rows or a partition of >= 3 rows under a total order) and some expression whose frame is not the whole partition, and >= 2 executors compared; \
+         distinct by case JSON."
             .into()
     }
     fn assumptions(&self) -> Vec<String> {
@@ -1464,6 +1481,7 @@ impl Property for C09 {
             "BoundedWindowAggExec is only built when every expression reports uses_bounded_memory() (the planner's own condition)".into(),
             "RANGE offsets on a NULL current key frame its NULL peer group (DESIGN Appendix A, PostgreSQL behaviour)".into(),
             "lag/lead/first/last/nth_value IGNORE NULLS skip NULL arguments (k-th non-null value); offset 0 with IGNORE NULLS is not generated".into(),
+            "FILTER (WHERE b) keeps the frame rows whose predicate is TRUE (NULL is not TRUE)".into(),
             "values are Int64 / Utf8 / dyadic Float64, so sums and averages are exact regardless of evaluation order or retraction".into(),
             "SQL-level window-limit / TopN rewrites are outside this operator-level check".into(),
         ]
